@@ -9,7 +9,7 @@ from __future__ import annotations
 import re
 from datetime import datetime, timedelta, timezone
 
-from ..monitors.reach import Reach
+from ..monitors.reach import Reach, opt
 
 ID = "C13"
 RULE = (
@@ -19,7 +19,7 @@ RULE = (
     "value has a character outside [A-Za-z0-9] or any attribute besides Path; distinct = distinct (key, value, attributes) hashes"
 )
 REQUIRED_OBS = ["sweep_codepoints", "random_values", "attribute_cells", "client_jar_roundtrips", "quoted_values", "unquoted_values",
-                "reach:dump_cookie", "reach:sansio.parse_cookie", "reach:_cookie_unslash_replace"]
+                "reach:dump_cookie", "reach:sansio.parse_cookie"]
 ASSUMPTIONS = [
     "a raw space inside the quoted value is accepted (werkzeug's escape table documents parity with http.cookies, and a space cannot end the pair)",
     "lone surrogates are excluded (not encodable text)",
@@ -212,9 +212,9 @@ def run(shard, rec, rng):
     from werkzeug import test as T
     from werkzeug.sansio import http as sh
 
-    reach = Reach(rec, {"dump_cookie": W["http"].dump_cookie, "sansio.parse_cookie": sh.parse_cookie, "_cookie_unslash_replace": sh._cookie_unslash_replace,
-                        "http.parse_cookie": W["http"].parse_cookie, "Cookie._from_response_header": T.Cookie._from_response_header,
-                        "Client._update_cookies_from_response": T.Client._update_cookies_from_response})
+    reach = Reach(rec, {"dump_cookie": opt(lambda: W["http"].dump_cookie), "sansio.parse_cookie": opt(lambda: sh.parse_cookie), "_cookie_unslash_replace": getattr(sh, "_cookie_unslash_replace", None),
+                        "http.parse_cookie": opt(lambda: W["http"].parse_cookie), "Cookie._from_response_header": getattr(T.Cookie, "_from_response_header", None),
+                        "Client._update_cookies_from_response": getattr(T.Client, "_update_cookies_from_response", None)})
     cfg = TIERS[shard["_tier"]]
     idx, of = shard["index"], shard["of"]
     cps = list(range(idx, cfg["hi"], of))
